@@ -38,8 +38,20 @@ static Verdict run_c12(const Case &c)
   };
   // verification and decryption each in their own child, on their own copy
   wapi::PipeCfg pc = pcfg(e, wapi::SchedSpec());
-  ChildResult rv = run_in_child([&]() { return wapi::verify(file, key, pc, true).ser(); });
-  ChildResult rd = run_in_child([&]() { return wapi::decrypt(file, key, pc).ser(); });
+  // "for every file and key" includes files met after other files: half of the cases first run verify or
+  // decrypt of the intact base file (right key) in the same process, then the operation under test
+  int warm = (int)c.geti("warm", 0);
+  bytes intact = ref::encrypt_file(e.P, fparams(e));
+  auto warmup = [&]() {
+    if (warm == 1)
+      wapi::verify(intact, e.key, pc, false);
+    else if (warm == 2)
+      wapi::decrypt(intact, e.key, pc);
+  };
+  if (warm)
+    v.classes.push_back("after_warmup_on_intact_file");
+  ChildResult rv = run_in_child([&]() { warmup(); return wapi::verify(file, key, pc, true).ser(); });
+  ChildResult rd = run_in_child([&]() { warmup(); return wapi::decrypt(file, key, pc).ser(); });
   if (rv.status == CH_TIMEOUT || rd.status == CH_TIMEOUT)
   {
     v.nontrivial = false;
@@ -98,8 +110,12 @@ static Case gen_c12()
   {
     c.set("filekind", "edited");
     std::string s;
-    switch (g::range(0, 9))
+    switch (g::range(0, 11))
     {
+    case 9:
+    case 10: // body / IV bit (tag, length and header unchanged)
+      s = "X:" + std::to_string(g::range(74, (long)flen)) + ":" + std::to_string(1 << g::range(0, 8));
+      break;
     case 0:
       s = "X:" + std::to_string(g::range(0, (long)flen)) + ":" + std::to_string(1 << g::range(0, 8));
       break;
@@ -144,6 +160,7 @@ static Case gen_c12()
   else
     c.set("keykind", "right");
   c.seti("also_encrypt", g::coin(15) ? 1 : 0);
+  c.seti("warm", g::coin(50) ? g::range(1, 3) : 0);
   return c;
 }
 
